@@ -1183,7 +1183,7 @@ def cat_origin_program(rng, family, kinds, consumer='conv'):
             'traits': []}
 
 
-def manual_program(rng, family):
+def manual_program(rng, family, plain_consumer=False):
     """autoconvert_layers=False: the user placed the searchable layers (a fixed stem, two
     user-placed searchable layers, a user-placed classifier with a frozen masker)."""
     c0 = rng.randint(1, 3)
@@ -1201,7 +1201,10 @@ def manual_program(rng, family):
            {'op': 'bn', 'name': 'bn1', 'src': 'b', 'out': 'b1', 'c': c2,
             'bdim': 1 if family == '1d' else 2, 'affine': True, 'eps': [1e-5, 1e-3, 2e-2][c2 % 3]},
            {'op': 'act', 'kind': 'relu_mod', 'name': 'act1', 'src': 'b1', 'out': 'b2'},
-           dict(base, name='p2', src='b2', out='c', cin=c2, cout=c3, pit=True, **kw),
+           # (plain_consumer: the README's "optimize only specific layers" usage - a standard layer
+           # right behind a user-placed searchable one)
+           dict(base, name='p2', src='b2', out='c', cin=c2, cout=c3, **dict(
+               kw, **({} if plain_consumer else {'pit': True}))),
            {'op': 'act', 'kind': 'relu_t', 'src': 'c', 'out': 'c2'},
            {'op': 'flat', 'kind': 'meth', 'src': 'c2', 'out': 'f'}]
     n = c3
@@ -1210,4 +1213,5 @@ def manual_program(rng, family):
     ops.append({'op': 'lin', 'name': 'head', 'src': 'f', 'out': 'o', 'fin': n, 'fout': 3,
                 'bias': True, 'pit': 'frozen'})
     return {'family': family, 'inputs': inputs, 'ops': ops, 'out': 'o', 'excluded': [],
-            'manual': True, 'features': ['manual', 'flat', 'flat-spatial', 'bn'], 'traits': []}
+            'manual': True, 'features': ['manual', 'flat', 'flat-spatial', 'bn'] +
+            (['manual-plain-consumer'] if plain_consumer else []), 'traits': []}
